@@ -233,6 +233,26 @@ impl Expr {
         }
     }
 
+    /// Does this index / field path lead through a member of a module, whatever name the
+    /// module goes by (`m.xs[0]`, `(k.p).n` with `k = m`)?
+    fn path_leads_through_module(
+        &self,
+        flags: &TypecheckFlags<impl Deref<Target = ClassType> + Debug>,
+    ) -> bool {
+        match self {
+            Expr::DotLookup { lhs, .. } => {
+                lhs.for_type(flags).is_ok_and(|ty| {
+                    matches!(ty.disregard_distractors(false), TypeLayout::Module(..))
+                }) || lhs.path_leads_through_module(flags)
+            }
+            Expr::Index { lhs_raw, .. } => lhs_raw.path_leads_through_module(flags),
+            Expr::UnaryUnwrap { value, .. } => value.path_leads_through_module(flags),
+            Expr::NilEval { primary, .. } => primary.path_leads_through_module(flags),
+            Expr::Value(Value::MathExpr(inner)) => inner.path_leads_through_module(flags),
+            _ => false,
+        }
+    }
+
     pub(crate) fn parse(input: Node) -> Result<Expr, Vec<anyhow::Error>> {
         let children_as_pairs = input.children().into_pairs();
         parse_expr(children_as_pairs, input.user_data().clone())
@@ -260,6 +280,9 @@ impl Expr {
                             if let Some(root) = lhs.root_ident_if_const() {
                                 bail!("cannot reassign using {op} through {root}, which is const")
                             }
+                            if lhs.path_leads_through_module(flags) {
+                                bail!("cannot reassign using {op} to a member of a module")
+                            }
                             Cow::Owned(index.for_type(flags)?)
                         }
                         Expr::DotLookup {
@@ -274,6 +297,9 @@ impl Expr {
                             if let TypeLayout::Module(..) =
                                 receiver.for_type(flags)?.disregard_distractors(false)
                             {
+                                bail!("cannot reassign using {op} to a member of a module")
+                            }
+                            if receiver.path_leads_through_module(flags) {
                                 bail!("cannot reassign using {op} to a member of a module")
                             }
                             Cow::Borrowed(expected_type)
